@@ -90,7 +90,23 @@ func runSolver(ctx context.Context, sp solverSpec, file string, timeoutS, seed i
 }
 
 func solveObligation(vc *VC, o *Obligation, dir string, idx int, timeoutS, seed int, needAgree int, only string) *SolveResult {
-	smt := vc.smtFor(o, true)
+	if !o.Cover && vc.hasFloatDefs(o) {
+		// pass 1: float arithmetic results left unconstrained (an over-approximation: a proof stays a proof)
+		to := timeoutS
+		if to > 20 {
+			to = 20
+		}
+		r := solveOnce(vc, o, dir, idx, to, seed, needAgree, only, true)
+		if r.Status == "discharged" {
+			r.Solver += "(floats-abstracted)"
+			return r
+		}
+	}
+	return solveOnce(vc, o, dir, idx, timeoutS, seed, needAgree, only, false)
+}
+
+func solveOnce(vc *VC, o *Obligation, dir string, idx int, timeoutS, seed int, needAgree int, only string, abstractFloats bool) *SolveResult {
+	smt := vc.smtForOpt(o, true, abstractFloats)
 	res := &SolveResult{Obl: o, SMTBytes: len(smt), AllOut: map[string]string{}}
 	if len(smt) > maxSMTBytes {
 		res.Status = "failed-unknown"
